@@ -614,7 +614,7 @@ def m_extent( ctx ):
     loop = loop[0]
     # running (base, length): the tuple assigned from next( input ) before the loop
     running = None
-    for s in fn.body:
+    for s in walk_no_nested( fn ):
         if isinstance( s, ast.Assign ) and isinstance( s.targets[0], ast.Tuple ) and is_call_to( s.value, 'next' ):
             running = [ e.id for e in s.targets[0].elts ]
     if not running or len( running ) != 2:
@@ -701,7 +701,7 @@ def m_tile( ctx ):
 def _merge_roles( fn ):
     """( base, length, address, count ) local names of merge(): the running pair is the tuple assigned from next( ... ) before the sweep loop,
     the swept pair is the loop target"""
-    run = [ s_ for s_ in fn.body if isinstance( s_, ast.Assign ) and is_call_to( s_.value, 'next' ) and isinstance( s_.targets[0], ast.Tuple ) and len( s_.targets[0].elts ) == 2 ]
+    run = [ s_ for s_ in walk_no_nested( fn ) if isinstance( s_, ast.Assign ) and is_call_to( s_.value, 'next' ) and isinstance( s_.targets[0], ast.Tuple ) and len( s_.targets[0].elts ) == 2 ]
     lps = [ s_ for s_ in fn.body if isinstance( s_, ast.For ) and isinstance( s_.target, ast.Tuple ) and len( s_.target.elts ) == 2
             and any( isinstance( c, ast.Continue ) for c in ast.walk( s_ )) ]
     if not run or not lps:
@@ -776,11 +776,47 @@ def m_bank( ctx ):
         res.bad( src, t, t, 'ranges of different register banks (address // 10000) must never merge' )
     else:
         res.bad( src, t, t, 'merging must be limited to ranges within reach' )
+    # the empty request: a generator must end, not raise - a bare next( it ) on an exhausted iterator inside a generator body becomes
+    # RuntimeError( "generator raised StopIteration" ) (PEP 479)
+    bare = [ c_ for c_ in walk_no_nested( fn ) if is_call_to( c_, 'next' ) and len( c_.args ) == 1 and not c_.keywords
+             and not any( isinstance( a_, ast.Try ) and any( c_ is x_ for b_ in a_.body for x_ in ast.walk( b_ )) and any( h_.type is None or 'StopIteration' in txt( h_.type ) or dotted( h_.type ) in ( 'Exception', 'BaseException' ) for h_ in a_.handlers )
+                          for a_ in src.ancestors( c_ )) ]
+    if bare and any( isinstance( y_, ( ast.Yield, ast.YieldFrom )) for y_ in walk_no_nested( fn )):
+        res.bad( src, bare[0], '%s in the generator merge(), unguarded' % norm_text( bare[0] ), 'merging an EMPTY set of ranges must yield nothing; an unguarded next() on the exhausted iterator raises StopIteration inside the generator, which Python turns into RuntimeError' )
+    else:
+        res.ok( src, fn, 'merge of an empty set of ranges ends the generator (no unguarded next())' )
     if reach:
         c = reach[0]
         # address < base + length + ( reach or 1 )   (strict '<' with reach>=1 means adjacent ranges merge, gap of `reach` does not)
         B, L, A, C = _merge_roles( fn )
-        if pmatch( c, '%s < %s + %s + ( reach or 1 )' % ( A, B, L )) or pmatch( c, '%s < %s + %s + reach' % ( A, B, L )):
+        # decided on the linear normal form, with single-definition locals of the loop body expanded: for integers  a <= b  is  a < b + 1
+        from .rules_paths import linear, _canon
+        defs1 = {}
+        for s_ in ast.walk( fn ):
+            if isinstance( s_, ast.Assign ) and isinstance( s_.targets[0], ast.Name ) and s_.targets[0].id not in ( B, L, A, C ):
+                defs1.setdefault( s_.targets[0].id, [] ).append( s_.value )
+        def expand( e, depth=0 ):
+            class Sub( ast.NodeTransformer ):
+                def visit_Name( self, n_ ):
+                    if depth < 3 and n_.id in defs1 and len( defs1[n_.id] ) == 1:
+                        return expand( defs1[n_.id][0], depth + 1 )
+                    return n_
+            return Sub().visit( ast.parse( ast.unparse( e ), mode='eval' ).body )
+        lhs, op_, rhs = c.left, c.ops[0], c.comparators[0]
+        if isinstance( op_, ( ast.Gt, ast.GtE )):
+            lhs, rhs = rhs, lhs
+            op_ = ast.Lt() if isinstance( op_, ast.Gt ) else ast.LtE()
+        ll, lr = linear( expand( lhs )), linear( expand( rhs ))
+        sem_ok = False
+        if ll is not None and lr is not None:
+            diff = dict( lr )
+            for k_, v_ in ll.items():
+                diff[k_] = diff.get( k_, 0 ) - v_
+            if isinstance( op_, ast.LtE ):
+                diff[''] = diff.get( '', 0 ) + 1
+            want = [ { B: 1, L: 1, A: -1, 'reachor1': 1 }, { B: 1, L: 1, A: -1, 'reach': 1 } ]
+            sem_ok = any( _canon( { k_.replace( ' ', '' ).replace( '(', '' ).replace( ')', '' ): v_ for k_, v_ in diff.items() } ) == _canon( w_ ) for w_ in want )
+        if sem_ok:
             res.ok( src, c, c )
         else:
             res.bad( src, c, c, 'reach test must be address < base + length + reach' )
